@@ -29,7 +29,7 @@ def cases(tier, seed):
 
 def requirements(tier):
     return {"min_counters": {"calls_checked": 3000 if tier == "quick" else 90000, "freq_weekly": 100, "freq_monthly": 100, "freq_yearly": 100,
-                             "freq_daily": 100, "daily_volume_full_days": 200, "midday_start": 500, "leap_day_series": 50, "invalid_refused": 50},
+                             "freq_daily": 100, "daily_volume_full_days": 200, "midday_start": 500, "leap_day_series": 50, "invalid_refused": 50, "unaligned_start": 200},
             "required_classes": HELPERS[:-1]}
 
 
@@ -78,6 +78,9 @@ def one_call(rnd, E, C, V, classes):
     start = rnd.choice(STARTS)
     if rnd.random() < 0.3:
         start = start.replace(hour=rnd.randrange(24))
+    if rnd.random() < 0.15:
+        start = start.replace(minute=rnd.choice([30, 1, 59]), second=rnd.choice([0, 1]))      # "starting at the requested start date"
+        C["unaligned_start"] = C.get("unaligned_start", 0) + 1
     unit = rnd.choice(UNITS)
     punit = E.u(unit).units if unit != "dimensionless" else E.u.dimensionless
     if start.hour != 0:
